@@ -1,6 +1,7 @@
 import SkyllhModel.Proto
 import SkyllhModel.Model.Store
 import SkyllhModel.Model.StoreIO
+import SkyllhModel.Model.StoreR7
 open Proto Store StoreIO
 
 /-  stateful line protocol (state = heap-layer store + value-layer tables, run in lock step):
@@ -11,8 +12,23 @@ open Proto Store StoreIO
       new name:dt:vals+name:dt:vals
       appendFieldFrom c n d m | setItemFrom c n d m | newShared d m     (the array handed in IS column m of container d)
       poke d m k v     (the caller writes conts[d][m][k] = v into the array __getitem__ handed out)
+      ctor d keep|N convs exc copy   (round 7: the constructor with its options on the live container d; same answer format)
+      record c         (round 7, read-only: as_numpy_record_array of container c; answer `ok <table>` | `err/<class>`)
     answer:  H=<res> T=<res> | <heap containers ;-separated> | <tables ;-separated>
+    stateless (round 7, the constructor with its options, Model/StoreR7.lean):
+      ctorD cols keep|N convs exc copy        (input = dict of arrays; length = that of the first value)
+      ctorT len cols keep|N convs exc copy    (input = structured ndarray / DataFieldRecordArray of that length)
+    answer:  ok L<len> name:k|f:dt:vals+… | err/<class>     (k = the caller's array object is stored, f = fresh array)
 -/
+
+def fCtor : Except Err Upd → String
+  | .error e => "err/" ++ fErr e
+  | .ok u =>
+    let fs := u.cols.map fun e => s!"{e.1}:" ++ (match e.2.1 with | .fresh => "f" | .kept _ => "k" | .written _ => "w") ++ ":" ++ fCol e.2.2
+    s!"ok L{u.len} " ++ (if fs.isEmpty then "-" else String.intercalate "+" fs)
+
+def pCtorOpts (keep convs exc cp : String) : CtorOpts :=
+  ⟨if keep == "N" then none else some (pList pN keep), pPairs pDT pDT convs, pList pN exc, pB cp⟩
 
 /-- heap-layer store + read-only locations, plain tables -/
 abbrev DState1 := (St × List Loc) × List Table
@@ -21,6 +37,17 @@ abbrev DState := DState1 × List DState1
 
 def answer1 (st : DState1) (line : String) : DState1 × String :=
   match tokens line with
+  | ["record", c] =>
+    -- as_numpy_record_array of container c (read-only)
+    (st, match asRecord st.1.1 (pN c) with
+         | .ok t => "ok " ++ fTable t
+         | .error e => "err/" ++ fErr e)
+  | ["ctor", d, keep, convs, exc, cp] =>
+    -- DataFieldRecordArray(conts[d], keep_fields, dtype_conversions, except_fields, copy): heap layer and plain tables
+    let o := pCtorOpts keep convs exc cp
+    let (s', rh) := stepCtorH st.1.1 (pN d) o
+    let (t', rt) := stepCtorT st.2 (pN d) o
+    (((s', st.1.2), t'), s!"H={fRes rh} T={fRes rt} | {semi (s'.conts.map (fCont s'.heap))} | {semi (t'.map fTable)}")
   | ["freeze", d, m] =>
     -- the array that is column m of container d becomes read-only
     match (st.1.1.conts[pN d]?).bind (fun c => c.fields.lookup (pN m)) with
@@ -48,6 +75,9 @@ def answer (st : DState) (line : String) : DState × String :=
   | ["pop"] => match st.2 with
     | top :: rest => ((top, rest), "ok")
     | [] => (st, "bad-pop")
+  | ["ctorD", cols, keep, convs, exc, cp] => (st, fCtor (ctorDict (pCtorOpts keep convs exc cp) (pCols cols)))
+  | ["ctorT", len, cols, keep, convs, exc, cp] =>
+    (st, fCtor (ctorTable (pCtorOpts keep convs exc cp) ⟨pN len, pCols cols⟩))
   | _ => let (s', out) := answer1 st.1 line; ((s', st.2), out)
 
 def main : IO Unit := do loopS (← IO.getStdin) ((((⟨[], []⟩, []), []), []) : DState) answer
